@@ -9,6 +9,7 @@ import (
 	"errors"
 	"fmt"
 	"net"
+	"sync/atomic"
 	"time"
 
 	"nhooyr.io/websocket/internal/errd"
@@ -181,6 +182,11 @@ func (c *Conn) writeClose(code StatusCode, reason string) error {
 		if err != nil {
 			return err
 		}
+	}
+
+	// Only a single close frame may ever be written, see RFC 6455 section 5.5.1.
+	if !atomic.CompareAndSwapInt32(&c.wroteClose, 0, 1) {
+		return net.ErrClosed
 	}
 
 	ctx, cancel := context.WithTimeout(context.Background(), time.Second*5)
